@@ -133,6 +133,20 @@ func (m *Machine) checkSat(extra *Term) Verdict {
 	return v
 }
 
+// checkRefresh decides pc ∧ extra; on sat with refresh it stores a model of
+// pc ∧ extra in m.model (the caller is about to add extra to the path
+// condition).
+func (m *Machine) checkRefresh(extra *Term, refresh bool) Verdict {
+	if !refresh {
+		return m.checkSat(extra)
+	}
+	v, model := m.checkSatModel(extra)
+	if v == Sat {
+		m.model = model
+	}
+	return v
+}
+
 func (m *Machine) checkSatModel(extra *Term) (Verdict, map[string]uint64) {
 	v := m.solver.Check(extra)
 	if v == Sat {
